@@ -12,3 +12,13 @@ mod common;
 
 pub use crate::config::{Committee, Parameters};
 pub use crate::mempool::{ConsensusMempoolMessage, Mempool};
+
+#[cfg(feature = "hotstuff_verif")]
+pub mod verif {
+    pub use crate::batch_maker::{Batch, BatchMaker, Transaction};
+    pub use crate::helper::Helper;
+    pub use crate::mempool::MempoolMessage;
+    pub use crate::processor::{Processor, SerializedBatchMessage};
+    pub use crate::quorum_waiter::{QuorumWaiter, QuorumWaiterMessage};
+    pub use crate::synchronizer::Synchronizer;
+}
